@@ -60,9 +60,6 @@
 #[cfg(folo_verif)]
 #[doc(hidden)]
 pub mod __verif;
-#[cfg(folo_verif)]
-#[path = "../../testing/verif/sync_shim.rs"]
-mod verif_sync;
 mod constants;
 mod join_handle;
 mod metrics;
@@ -71,6 +68,9 @@ mod processor_registry;
 mod processor_state;
 mod scheduler;
 mod task;
+#[cfg(folo_verif)]
+#[path = "../../testing/verif/sync_shim.rs"]
+mod verif_sync;
 mod worker;
 
 pub(crate) use constants::NEVER_POISONED;
